@@ -1637,3 +1637,160 @@ Proof.
   rewrite Hg. cbn [Nat.ltb Nat.leb].
   destruct (match last_seg P with [] => true | _ :: _ => false end || has_colon (first_seg (last_seg P))); discriminate.
 Qed.
+
+(* ================= round 4: equivalent-but-not-identical IRIs ================= *)
+Lemma starts_with_lcp p s : starts_with p s = false -> lcp p s < length p.
+Proof.
+  revert s. induction p as [|x p IH]; intros s; [discriminate|].
+  destruct s as [|y s]; simpl; [lia|].
+  destruct (N.eqb x y); simpl; [intros H; apply IH in H; lia|lia].
+Qed.
+
+Lemma lcp_firstn_l a b k : lcp (firstn k a) b < k -> lcp a b = lcp (firstn k a) b.
+Proof.
+  revert a b. induction k as [|k IH]; intros a b; [lia|].
+  destruct a as [|x a]; [reflexivity|]. destruct b as [|y b]; [reflexivity|]. simpl.
+  destruct (N.eqb x y); [|reflexivity]. intros H. f_equal. apply IH. lia.
+Qed.
+
+Lemma new_pseudoroot_ge b n z p : new b n = Some z -> positions_of b = Some p ->
+  authority_end p <= z_pseudoroot z.
+Proof.
+  intros Hnew Hpos.
+  destruct (new_inv _ _ _ Hnew) as (p' & Hpos' & Hok & _ & _ & _ & _ & _ & Hsl).
+  rewrite Hpos in Hpos'. injection Hpos' as <-.
+  pose proof (po_ae_pe _ _ Hok). pose proof (po_pe_qe _ _ Hok). pose proof (po_qe_len _ _ Hok).
+  cbv zeta in Hsl. rewrite (slashes_rel b (authority_end p) (path_end p)) in Hsl by lia.
+  set (L := rel_loop (S n) (slice (authority_end p) (path_end p) b) (path_end p - authority_end p)) in *.
+  rewrite map_length in Hsl.
+  destruct (Nat.ltb_spec n (length L)) as [Hn|Hn].
+  - injection Hsl as _ Hp. rewrite Hp. rewrite last_nth, map_length, nth_map_add by lia. lia.
+  - destruct (hd_is is_slash (skipn (authority_end p) b)); injection Hsl as _ Hp; rewrite Hp; lia.
+Qed.
+
+Theorem relativize_root_differs_none b n i : shares_root b i = false -> relativize b n i = Ret None.
+Proof.
+  unfold shares_root, relativize. intros Hs.
+  destruct (new b n) as [z|] eqn:Hnew; [|reflexivity].
+  destruct (new_inv _ _ _ Hnew) as (p & Hpos & Hok & Hb & Hqe & Hpe & Hpb & Hha & _).
+  rewrite Hpos in Hs.
+  pose proof (new_pseudoroot_ge _ _ _ _ Hnew Hpos) as Hpr.
+  pose proof (po_ae_pe _ _ Hok). pose proof (po_pe_qe _ _ Hok). pose proof (po_qe_len _ _ Hok).
+  assert (Hl : lcp b i < authority_end p).
+  { apply starts_with_lcp in Hs. rewrite firstn_length, Nat.min_l in Hs by lia.
+    rewrite (lcp_firstn_l b i (authority_end p)); assumption. }
+  unfold relativize_z. rewrite Hb, Hqe, Hpe.
+  destruct (Nat.leb_spec (query_end p) (lcp b i)); [lia|].
+  destruct (Nat.leb_spec (path_end p) (lcp b i)); [lia|].
+  destruct (Nat.leb_spec (z_pseudoroot z) (lcp b i)); [lia|]. reflexivity.
+Qed.
+
+Corollary relativize_some_shares_root b n i r : relativize b n i = Ret (Some r) -> shares_root b i = true.
+Proof.
+  intros H. destruct (shares_root b i) eqn:E; [reflexivity|].
+  rewrite (relativize_root_differs_none b n i E) in H. discriminate.
+Qed.
+
+Lemma starts_with_firstn_eq p s : starts_with p s = true -> firstn (length p) s = p.
+Proof.
+  revert s. induction p as [|x p IH]; intros s; [reflexivity|].
+  destruct s as [|y s]; [discriminate|]. simpl.
+  destruct (N.eqb_spec x y); [|discriminate]. subst. intros H. f_equal. apply IH. exact H.
+Qed.
+
+(* the schemes differ in any way (for instance in letter case only): nothing is returned *)
+Theorem relativize_scheme_differs_none b n i p :
+  positions_of b = Some p -> firstn (scheme_end p) i <> firstn (scheme_end p) b -> relativize b n i = Ret None.
+Proof.
+  intros Hpos Hne. apply relativize_root_differs_none. unfold shares_root. rewrite Hpos.
+  destruct (starts_with (firstn (authority_end p) b) i) eqn:E; [|reflexivity].
+  exfalso. apply Hne. pose proof (positions_ok _ _ Hpos) as Hok.
+  pose proof (po_ae_pe _ _ Hok). pose proof (po_pe_qe _ _ Hok). pose proof (po_qe_len _ _ Hok).
+  assert (scheme_end p <= authority_end p) by (destruct (po_se_ae _ _ Hok); lia).
+  apply starts_with_firstn_eq in E. rewrite firstn_length, Nat.min_l in E by lia.
+  rewrite <- (firstn_firstn_le i (scheme_end p) (authority_end p)) by lia. rewrite E.
+  apply firstn_firstn_le. lia.
+Qed.
+
+(* same for the authority *)
+Theorem relativize_authority_differs_none b n i p :
+  positions_of b = Some p -> firstn (authority_end p) i <> firstn (authority_end p) b -> relativize b n i = Ret None.
+Proof.
+  intros Hpos Hne. apply relativize_root_differs_none. unfold shares_root. rewrite Hpos.
+  destruct (starts_with (firstn (authority_end p) b) i) eqn:E; [|reflexivity].
+  exfalso. apply Hne. pose proof (positions_ok _ _ Hpos) as Hok.
+  pose proof (po_ae_pe _ _ Hok). pose proof (po_pe_qe _ _ Hok). pose proof (po_qe_len _ _ Hok).
+  apply starts_with_firstn_eq in E. rewrite firstn_length, Nat.min_l in E by lia. exact E.
+Qed.
+
+(* ================= the components of the base (oxiri accessors) recompose to the base ================= *)
+Lemma positions_auth_slashes b p : positions_of b = Some p -> scheme_end p + 2 <= authority_end p ->
+  skipn (scheme_end p) b = c_slash :: c_slash :: skipn (scheme_end p + 2) b.
+Proof.
+  unfold positions_of. destruct (scheme_len b) as [k|]; [|discriminate]. cbv zeta.
+  destruct (strip_prefix [c_slash; c_slash] (skipn (S k) b)) as [rest|] eqn:E;
+    intros [= <-]; unfold scheme_end, authority_end; [|lia].
+  intros _. apply strip_prefix_some in E. rewrite skipn_add, E. reflexivity.
+Qed.
+
+Lemma slice_split a m c (s : str) : a <= m -> m <= c -> slice a c s = slice a m s ++ slice m c s.
+Proof.
+  intros H1 H2. unfold slice. replace (c - a) with ((m - a) + (c - m)) by lia.
+  rewrite firstn_add. f_equal. rewrite <- skipn_add. replace (a + (m - a)) with m by lia. reflexivity.
+Qed.
+
+Lemma slice_cons a c (s : str) x t : a < c -> skipn a s = x :: t -> slice a c s = x :: slice (S a) c s.
+Proof.
+  intros H E. unfold slice. rewrite E. replace (c - a) with (S (c - S a)) by lia. cbn [firstn]. f_equal.
+  replace (S a) with (a + 1) by lia. rewrite skipn_add, E. reflexivity.
+Qed.
+
+Theorem components_recompose b p : positions_of b = Some p -> ox_recompose b p = b.
+Proof.
+  intros Hpos. pose proof (positions_ok _ _ Hpos) as Hok.
+  pose proof (po_se_pos _ _ Hok) as H1. pose proof (po_ae_pe _ _ Hok) as H3.
+  pose proof (po_pe_qe _ _ Hok) as H4. pose proof (po_qe_len _ _ Hok) as H5.
+  assert (H2 : scheme_end p <= authority_end p) by (destruct (po_se_ae _ _ Hok); lia).
+  unfold ox_recompose, recompose. cbn [p_scheme p_auth p_path p_query p_frag].
+  (* b cut at the four offsets *)
+  assert (Hb : b = firstn (scheme_end p) b ++ slice (scheme_end p) (authority_end p) b
+                   ++ slice (authority_end p) (path_end p) b ++ slice (path_end p) (query_end p) b
+                   ++ skipn (query_end p) b).
+  { rewrite <- (firstn_skipn (scheme_end p) b) at 1. f_equal.
+    rewrite <- (firstn_skipn (authority_end p - scheme_end p) (skipn (scheme_end p) b)) at 1. f_equal.
+    rewrite <- skipn_add. replace (scheme_end p + (authority_end p - scheme_end p)) with (authority_end p) by lia.
+    rewrite <- (firstn_skipn (path_end p - authority_end p) (skipn (authority_end p) b)) at 1. f_equal.
+    rewrite <- skipn_add. replace (authority_end p + (path_end p - authority_end p)) with (path_end p) by lia.
+    rewrite <- (firstn_skipn (query_end p - path_end p) (skipn (path_end p) b)) at 1. f_equal.
+    rewrite <- skipn_add. f_equal. lia. }
+  etransitivity; [|symmetry; exact Hb]. clear Hb.
+  apply (f_equal2 (@app N)); [|apply (f_equal2 (@app N)); [|apply (f_equal2 (@app N)); [|apply (f_equal2 (@app N))]]].
+  - (* scheme ':' *)
+    unfold ox_scheme. pose proof (positions_colon _ _ Hpos) as Hc.
+    rewrite <- (firstn_S_nth b _ _ Hc). f_equal. lia.
+  - (* authority *)
+    unfold ox_authority. destruct (Nat.ltb_spec (authority_end p) (scheme_end p + 2)) as [Hlt|Hge].
+    + assert (authority_end p = scheme_end p) as -> by (destruct (po_se_ae _ _ Hok); lia).
+      unfold slice. rewrite Nat.sub_diag. reflexivity.
+    + pose proof (positions_auth_slashes _ _ Hpos Hge) as Hs.
+      rewrite (slice_cons (scheme_end p) (authority_end p) b _ _ ltac:(lia) Hs).
+      assert (Hs' : skipn (S (scheme_end p)) b = c_slash :: skipn (scheme_end p + 2) b).
+      { replace (S (scheme_end p)) with (scheme_end p + 1) by lia. rewrite skipn_add, Hs. reflexivity. }
+      rewrite (slice_cons (S (scheme_end p)) (authority_end p) b _ _ ltac:(lia) Hs'). cbn [app]. do 2 f_equal. f_equal. lia.
+  - reflexivity.
+  - (* query *)
+    unfold ox_query. pose proof (po_qe _ _ Hok) as Hq.
+    destruct (Nat.ltb_spec (path_end p) (query_end p)) as [Hlt|Hge].
+    + destruct (skipn (path_end p) b) as [|c rest] eqn:E; [lia|].
+      destruct (N.eqb_spec c c_qm) as [->|]; [|lia].
+      rewrite (slice_cons _ _ _ _ _ Hlt E). do 2 f_equal. lia.
+    + assert (query_end p = path_end p) as -> by lia. unfold slice. rewrite Nat.sub_diag. reflexivity.
+  - (* fragment *)
+    unfold ox_fragment. destruct (Nat.ltb_spec (query_end p) (length b)) as [Hlt|Hge].
+    + destruct (po_after_query _ _ Hok) as [E|E].
+      * apply (f_equal (@length N)) in E. rewrite skipn_length in E. simpl in E. lia.
+      * destruct (skipn (query_end p) b) as [|c t] eqn:F; [discriminate|]. cbn [hd_is] in E.
+        apply N.eqb_eq in E. subst c. f_equal.
+        replace (query_end p + 1) with (query_end p + 1) by lia. rewrite skipn_add, F. reflexivity.
+    + rewrite skipn_all2 by lia. reflexivity.
+Qed.
